@@ -4,7 +4,6 @@ CONSTANTS
   K = 3
   Rounds = {0,1,2}
   Vals = {1,2}
-  MaxPos = 5
   MutInCursor = TRUE
   Depth = 0
   CoverOneIn = 1
